@@ -21,15 +21,19 @@ ENCODED = ["twisted.conch.ssh.transport:SSHTransportBase.sendPacket",
            "twisted.conch.ssh.transport:SSHTransportBase.connectionMade",
            "twisted.conch.ssh.transport:SSHCiphers"]
 BOUNDS = {"quick": {"p": 2, "p2": 1, "v": 1, "ban": 1, "pad": 6, "ms": 4, "cuts": 1, "lcut": 9, "n": 18},
-          "thorough": {"p": 3, "p2": 2, "v": 2, "ban": 2, "pad": 12, "ms": 16, "cuts": 2, "lcut": 64, "n": 70}}
+          "thorough": {"p": 3, "p2": 1, "v": 2, "ban": 2, "pad": 12, "ms": 16, "cuts": 2, "lcut": 64, "n": 70}}
 B = {}
-BOUNDS_TEXT = ("1-2 packets; message number any 0..255, payload of 0..p (second packet 0..p2) symbolic bytes (all 256 "
-               "values); random padding = symbolic bytes (first `pad` bytes of the random pool symbolic, rest 0x99); "
-               "every cut position of the byte stream (quick: one cut for two packets / two cuts for one packet; "
-               "thorough: two cuts); version exchange: 0-2 banner lines (first one with `ban` symbolic leading bytes), "
-               "version line 'SSH-2.0-' + v symbolic bytes, CRLF or LF, one packet behind it, every cut position; "
-               "model cipher block size 8 and 16, MAC size 0 and ms, verify outcome symbolic per packet; arbitrary "
-               "4-byte declared length in front of a 32+ms byte delivery (cut at <= lcut)")
+BOUNDS_TEXT = ("packets/framing: 1-2 packets, message number any 0..255, payload of 0..p (second packet 0..p2) symbolic "
+               "bytes (all 256 values); random padding symbolic (first `pad` bytes of the random pool, rest 0x99); every "
+               "cut position of the byte stream (packets: quick one cut for two packets / two cuts for one packet, "
+               "thorough two cuts; framing: one cut); framing: model cipher block size 8 and 16, MAC size 0 and ms, "
+               "verify outcome a symbolic bool per packet; padding: every payload length 0..n (first byte symbolic) "
+               "with the real none cipher (block 8) and the model (block 16, MAC ms); version: banner shapes none / "
+               "'<ban>anner!' / that plus '2nd line' / 'a<ban>SSH-b' with <= ban symbolic bytes, version line "
+               "'SSH-2.0-' + 1..v symbolic bytes, CRLF or LF, one packet (payload 0..1 bytes) behind it, every cut "
+               "position (two cuts: thorough, no banner), the 4 padding bytes symbolic when the whole stream is one "
+               "delivery; badlength: arbitrary 4-byte declared "
+               "length (all 2**32 values) in front of a 32+ms byte delivery cut at any position <= lcut")
 OUTSIDE = ["the real ciphers (AES/3DES in CBC/CTR) and MACs (HMAC-*): C code in cryptography/OpenSSL/hmac, never "
            "executed here; that a real MAC rejects an altered packet is an ASSUMPTION, only the transport's reaction "
            "to verify() returning False is checked",
@@ -38,8 +42,12 @@ OUTSIDE = ["the real ciphers (AES/3DES in CBC/CTR) and MACs (HMAC-*): C code in 
            "(sendKexInit is a no-op in the harness, _keyExchangeState stays NONE)",
            "message dispatch (dispatchMessage is replaced by a recorder) and the DISCONNECT packet that "
            "sendDisconnect would send (replaced by a recorder that calls transport.loseConnection())",
-           "payloads longer than p bytes, more than two packets, more than `cuts`+1 deliveries per stream part, "
-           "banner lines other than the shapes above; the 4096 byte pre-version limit",
+           "payloads with more than p symbolic bytes (longer ones only as 1 symbolic byte + constant filler up to n), "
+           "more than two packets per connection, more than three deliveries, banner lines other than the four "
+           "shapes in the bounds; peer version lines that are not 'SSH-2.0-...' (bad-version disconnect) and the "
+           "4096 byte pre-version limit",
+           "incoming packets whose padding-length byte is inconsistent with the declared length (getPacket does not "
+           "validate it); only the two declared-length checks (> 1 MiB, not a multiple of the block size) are claimed",
            "data delivered after the transport asked to lose the connection (a real transport stops reading)",
            "the text of disconnect descriptions"]
 ASSUMPTIONS = ["randbytes.secureRandom is an environment stub that returns the next bytes of a pool whose first "
@@ -47,7 +55,12 @@ ASSUMPTIONS = ["randbytes.secureRandom is an environment stub that returns the n
                "part B model of SSHCiphers: encrypt/decrypt add/subtract a position dependent key stream byte "
                "(stateful, like CTR/CBC chaining: decrypting a block twice or out of order garbles everything after "
                "it); makeMAC(seq, data) is a stub tag over seq, length and selected plaintext bytes; verify(seq, data, "
-               "mac) returns (mac == makeMAC(seq, data)) and <symbolic bool of that packet>",
+               "mac) returns (mac == makeMAC(seq, data)) and <symbolic bool of that packet>, i.e. it is arbitrary "
+               "except that it never accepts a tag that is not makeMAC's own output for the same sequence number "
+               "and plaintext; block sizes 8 (3des, none) and 16 (aes); MAC sizes 0, 4 (quick) and 16 (thorough) stand "
+               "for the real digest sizes 16..64 (getPacket only uses the size as a slice length)",
+               "the sender emits the smallest legal padding (4 <= padding < 4 + block size): twisted's documented "
+               "behaviour (test_sendPacketPlain), stricter than RFC 4253 which allows up to 255",
                "f-string interpolation of a symbolic int in an error description yields the placeholder '<n>' in the "
                "lifted world (descriptions are not observed)",
                "`_kex.getSupportedKeyExchanges` is replaced by an empty list while the class body is lifted (the "
@@ -362,7 +375,7 @@ def _banner(nb, ban, eol):
 def version(nb: int, ban: str, v: str, crlf: bool, m1: int, p1: str, pad: str, s1: int, s2: int) -> bool:
     """
     pre: 0 <= nb <= 3 and 0 <= m1 <= 255
-    pre: len(ban) <= B['ban'] and 1 <= len(v) <= B['v'] and len(p1) <= 1 and len(pad) in (0, 2, 4)
+    pre: len(ban) <= B['ban'] and 1 <= len(v) <= B['v'] and len(p1) <= 1 and len(pad) in (0, 4)
     pre: all(0 < ord(c) < 256 for c in ban + v) and all(ord(c) < 256 for c in p1 + pad)
     pre: "\\n" not in ban and "\\n" not in v and "\\r" not in v and "-" not in v
     pre: nb > 0 or len(ban) == 0
@@ -613,10 +626,8 @@ HARNESSES = [
       [("two", a, c) for a in _len_shards("p1", BOUNDS[tier]["p"]) for c in _len_shards("p2", BOUNDS[tier]["p2"])],
       timeout={"quick": 90, "thorough": 1500}),
     H(version, shards=lambda tier: [("nb == %d" % n,) + c for n in (0, 1, 2, 3)
-                                    for c in ((("len(pad) == 0", "crlf"), ("len(pad) == 0", "not crlf"),
-                                               ("len(pad) == 4 and s2 == 0",)) if tier == "quick" else
-                                              (("len(pad) == 0", "crlf"), ("len(pad) == 0", "not crlf"),
-                                               ("len(pad) == 2 and s1 == 0",), ("len(pad) == 4 and s2 == 0",)))],
+                                    for c in (("len(pad) == 0", "crlf"), ("len(pad) == 0", "not crlf"),
+                                              ("len(pad) == 4 and s2 == 0",))],
       timeout={"quick": 90, "thorough": 1500}),
     H(framing, shards=lambda tier: [("bs == %d" % x, "ms == %d" % y, a)
                                     for x in (8, 16) for y in (0, BOUNDS[tier]["ms"])
@@ -633,7 +644,8 @@ VECTORS = {
                 (65, "BC", True, 255, "\x00", "abcdef", 0, 17), (0, "", True, 1, "", "\n\r\x00\xff\x80 ", 16, 16)],
     # test_dataBeforeVersion / test_dataReceivedSSHVersionUnixNewline
     "version": [(2, "b", "x", False, 65, "B", "\x99" * 4, 0, 0), (1, "", "T", True, 20, "", "abcd", 3, 12),
-                (0, "", "z", False, 94, "\n", "SSH.", 0, 12)],
+                (0, "", "z", False, 94, "\n", "SSH.", 0, 12), (3, "x", "T", True, 65, "B", "", 0, 14),
+                (1, "W", "z", True, 10, "S", "SH-\n", 0, 0), (1, "W", "z", True, 65, "B", "", 0, 9)],
     "framing": [(8, 4, 65, "BCD", 66, "", "\x99" * 6, 0, 9, True, True), (16, 4, 65, "B", 66, "C", "abcdef", 0, 40, True, False),
                 (16, 0, 1, "", 2, "", "abcdef", 5, 16, True, True), (8, 4, 65, "B", 66, "C", "abcdef", 0, 0, False, True)],
     "padding": [(False, 65, "B", 6, "\x99" * 4), (True, 65, "B", 6, "\x99" * 4), (False, 0, "\n", 0, "abcd"), (True, 255, "\xff", 17, "abcd")],
